@@ -108,6 +108,8 @@ func (r *runnerA) execA(w *World, parent int, a string, args map[string]interfac
 		res = map[string]interface{}{"ok": err == nil, "err": errStr(err)}
 	case "MintGenesis":
 		res = resMap(w.MintGenesis(App1))
+	case "EsmOn":
+		w.EsmOn()
 	case "SeedFees":
 		w.SeedFees(argI(args, "x"))
 	case "SurplusFund":
@@ -191,12 +193,16 @@ func DriveA(lg *sim.Log, seed int64, runs, steps int) {
 		cur := r.add(w, 0, "Init", cfgArgs(c), nil)
 		useV1 := rng.Pick(3) != 0
 		useV2 := rng.Pick(3) != 0 || !useV1
+		esmRun := k%2 == 0 // in every second behaviour the app's emergency shutdown may be executed while auctions are live
 		for i := 0; i < steps; i++ {
 			st := r.preOf(cur)
 			var a string
 			args := map[string]interface{}{}
-			wts := []int{0, 0, 0, 0, 0, 1, 1, 1}
-			// 0 bid, 1 hookV1, 2 block, 3 advance, 4 generic, 5 mint, 6 seed fees, 7 surplus fund
+			wts := []int{0, 0, 0, 0, 0, 1, 1, 1, 0}
+			// 0 bid, 1 hookV1, 2 block, 3 advance, 4 generic, 5 mint, 6 seed fees, 7 surplus fund, 8 emergency shutdown
+			if useV1 && esmRun && !st.Esm && len(st.Auc) > 0 {
+				wts[8] = 3
+			}
 			if len(st.Auc) > 0 {
 				wts[0] = 12
 			}
@@ -278,6 +284,8 @@ func DriveA(lg *sim.Log, seed int64, runs, steps int) {
 				a, args["x"] = "SeedFees", 1+rng.Int63n(2*c.L)
 			case 7:
 				a, args["x"] = "SurplusFund", int64(0)
+			case 8:
+				a, args["x"] = "EsmOn", int64(0)
 			}
 			cur = r.execA(w, cur, a, args)
 		}
